@@ -492,24 +492,49 @@ theorem equals_false_of_lt {a b : PE} (h : a < b) : PE.equals a b = false := by
   · rfl
   · grind
 
-theorem emitMerge_read (k : KeyCodec) (htotal : ∀ pe, ∃ s, k.enc pe = some s)
+/-- the three codec laws at one path element: it is printable, the printed key is not the membership
+marker, and reading the printed key yields an equivalent element -/
+def LawAt (k : KeyCodec) (pe : PE) : Prop :=
+  ∃ s, k.enc pe = some s ∧ s ≠ "." ∧ ∃ pe', k.dec s = .ok pe' ∧ PE.equals pe' pe = true
+
+theorem lawAt_of_laws (k : KeyCodec) (htotal : ∀ pe, ∃ s, k.enc pe = some s)
     (hround : ∀ pe s, k.enc pe = some s → ∃ pe', k.dec s = .ok pe' ∧ PE.equals pe' pe = true)
-    (hnd : ∀ pe, k.enc pe ≠ some ".") :
+    (hnd : ∀ pe, k.enc pe ≠ some ".") (pe : PE) : LawAt k pe := by
+  obtain ⟨key, hkey⟩ := htotal pe
+  exact ⟨key, hkey, fun h => hnd pe (h ▸ hkey), hround pe key hkey⟩
+
+/-- every member and child element of the trie, recursively, satisfies `Q` -/
+inductive AllPE (Q : PE → Prop) : SetTrie → Prop
+  | node (m : List PE) (c : Children) : (∀ pe ∈ m, Q pe) → (∀ p ∈ c, Q p.1) → (∀ p ∈ c, AllPE Q p.2) →
+      AllPE Q (SetTrie.node m c)
+
+theorem allPE_node {Q : PE → Prop} {m : List PE} {c : Children} (h : AllPE Q (SetTrie.node m c)) :
+    (∀ pe ∈ m, Q pe) ∧ (∀ p ∈ c, Q p.1) ∧ (∀ p ∈ c, AllPE Q p.2) := by
+  cases h with
+  | node _ _ h1 h2 h3 => exact ⟨h1, h2, h3⟩
+
+theorem allPE_trivial {Q : PE → Prop} (hQ : ∀ pe, Q pe) : ∀ t : SetTrie, AllPE Q t := by
+  intro t
+  induction t using SetTrie.ind with
+  | h m c ih => exact .node m c (fun pe _ => hQ pe) (fun p _ => hQ p.1) ih
+
+/-- `emitMerge_read` with the codec laws required only of the elements at hand -/
+theorem emitMerge_read_on (k : KeyCodec) :
     ∀ (ms : List PE) (cs : Children), SortedPE ms → SortedKeys cs →
       (∀ p ∈ cs, isEmpty p.2 = false) → (∀ p ∈ cs, TreeOK k p.2) →
+      (∀ pe ∈ ms, LawAt k pe) → (∀ p ∈ cs, LawAt k p.1) →
       ∃ l, emitMergeWith k ms cs = some l ∧
         ∀ acc : ReadOut, Good acc.children →
           (∀ p ∈ cs, getChild p.1 (tr acc.children).children = none) → ReadSpec k l (node ms cs) acc
-  | [], [], _, _, _, _ => by
+  | [], [], _, _, _, _, _, _ => by
     refine ⟨[], by rw [emitMergeWith], ?_⟩
     intro acc _ _
     have : node [] [] = empty := rfl
     simp [ReadSpec, readMembers_nil, this, has_empty]
-  | mpe :: ms, [], hms, hcs, hne, hok => by
-    obtain ⟨l, hl, ih⟩ := emitMerge_read k htotal hround hnd ms [] (sortedPE_cons.1 hms).2 hcs hne hok
-    obtain ⟨key, hkey⟩ := htotal mpe
-    obtain ⟨pe', hdec, heq⟩ := hround mpe key hkey
-    have hd : key ≠ "." := fun h => hnd mpe (h ▸ hkey)
+  | mpe :: ms, [], hms, hcs, hne, hok, hlm, hlc => by
+    obtain ⟨l, hl, ih⟩ := emitMerge_read_on k ms [] (sortedPE_cons.1 hms).2 hcs hne hok
+      (fun pe hpe => hlm pe (by simp [hpe])) hlc
+    obtain ⟨key, hkey, hd, pe', hdec, heq⟩ := hlm mpe (by simp)
     refine ⟨(key, J.obj []) :: l, by rw [emitMergeWith]; simp [hkey, hl], ?_⟩
     intro acc hacc hfr
     obtain ⟨acc', e, h1, h2, h3, h4, h5, h6⟩ := read_member_step k l acc hd hdec heq hacc
@@ -518,13 +543,12 @@ theorem emitMerge_read (k : KeyCodec) (htotal : ∀ pe, ∃ s, k.enc pe = some s
     intro q
     rw [e, i4, h6, has_node_cons_member [] hms]
     ac_rfl
-  | [], (cpe, t) :: cs, hms, hcs, hne, hok => by
+  | [], (cpe, t) :: cs, hms, hcs, hne, hok, hlm, hlc => by
     have hcs' := sortedKeys_cons.1 hcs
-    obtain ⟨l, hl, ih⟩ := emitMerge_read k htotal hround hnd [] cs hms hcs'.2
-      (fun p hp => hne p (by simp [hp])) (fun p hp => hok p (by simp [hp]))
-    obtain ⟨key, hkey⟩ := htotal cpe
-    obtain ⟨pe', hdec, heq⟩ := hround cpe key hkey
-    have hd : key ≠ "." := fun h => hnd cpe (h ▸ hkey)
+    obtain ⟨l, hl, ih⟩ := emitMerge_read_on k [] cs hms hcs'.2
+      (fun p hp => hne p (by simp [hp])) (fun p hp => hok p (by simp [hp])) hlm
+      (fun p hp => hlc p (by simp [hp]))
+    obtain ⟨key, hkey, hd, pe', hdec, heq⟩ := hlc (cpe, t) (by simp)
     have hnt : isEmpty t = false := hne (cpe, t) (by simp)
     obtain ⟨sub, hsub, herr, hun, hhas, hmem⟩ := hok (cpe, t) (by simp) false
     refine ⟨(key, J.obj sub) :: l, by rw [emitMergeWith]; simp [hkey, hl, hsub], ?_⟩
@@ -540,17 +564,16 @@ theorem emitMerge_read (k : KeyCodec) (htotal : ∀ pe, ∃ s, k.enc pe = some s
     rw [e, i4, h6, has_node_cons_child [] hcs]
     simp only [Bool.false_and, Bool.false_or]
     ac_rfl
-  | mpe :: ms, (cpe, t) :: cs, hms, hcs, hne, hok => by
+  | mpe :: ms, (cpe, t) :: cs, hms, hcs, hne, hok, hlm, hlc => by
     have hms' := sortedPE_cons.1 hms
     have hcs' := sortedKeys_cons.1 hcs
     have hnt : isEmpty t = false := hne (cpe, t) (by simp)
     cases hcmp : PE.compare mpe cpe with
     | lt =>
       rw [compare_lt_eq] at hcmp
-      obtain ⟨l, hl, ih⟩ := emitMerge_read k htotal hround hnd ms ((cpe, t) :: cs) hms'.2 hcs hne hok
-      obtain ⟨key, hkey⟩ := htotal mpe
-      obtain ⟨pe', hdec, heq⟩ := hround mpe key hkey
-      have hd : key ≠ "." := fun h => hnd mpe (h ▸ hkey)
+      obtain ⟨l, hl, ih⟩ := emitMerge_read_on k ms ((cpe, t) :: cs) hms'.2 hcs hne hok
+        (fun pe hpe => hlm pe (by simp [hpe])) hlc
+      obtain ⟨key, hkey, hd, pe', hdec, heq⟩ := hlm mpe (by simp)
       refine ⟨(key, J.obj []) :: l, by rw [emitMergeWith]; simp [hkey, hl, (compare_lt_eq mpe cpe).mpr hcmp], ?_⟩
       intro acc hacc hfr
       obtain ⟨acc', e, h1, h2, h3, h4, h5, h6⟩ := read_member_step k l acc hd hdec heq hacc
@@ -561,11 +584,10 @@ theorem emitMerge_read (k : KeyCodec) (htotal : ∀ pe, ∃ s, k.enc pe = some s
       ac_rfl
     | eq =>
       have hmc : PE.equals mpe cpe = true := (PE.compare_eq_iff mpe cpe).1 hcmp
-      obtain ⟨l, hl, ih⟩ := emitMerge_read k htotal hround hnd ms cs hms'.2 hcs'.2
+      obtain ⟨l, hl, ih⟩ := emitMerge_read_on k ms cs hms'.2 hcs'.2
         (fun p hp => hne p (by simp [hp])) (fun p hp => hok p (by simp [hp]))
-      obtain ⟨key, hkey⟩ := htotal cpe
-      obtain ⟨pe', hdec, heq⟩ := hround cpe key hkey
-      have hd : key ≠ "." := fun h => hnd cpe (h ▸ hkey)
+        (fun pe hpe => hlm pe (by simp [hpe])) (fun p hp => hlc p (by simp [hp]))
+      obtain ⟨key, hkey, hd, pe', hdec, heq⟩ := hlc (cpe, t) (by simp)
       obtain ⟨sub, hsub, herr, hun, hhas, hmem⟩ := hok (cpe, t) (by simp) true
       refine ⟨(key, J.obj sub) :: l, by rw [emitMergeWith]; simp [hkey, hl, hsub, hcmp], ?_⟩
       intro acc hacc hfr
@@ -582,11 +604,10 @@ theorem emitMerge_read (k : KeyCodec) (htotal : ∀ pe, ∃ s, k.enc pe = some s
       simp only [Bool.true_and]
       ac_rfl
     | gt =>
-      obtain ⟨l, hl, ih⟩ := emitMerge_read k htotal hround hnd (mpe :: ms) cs hms hcs'.2
-        (fun p hp => hne p (by simp [hp])) (fun p hp => hok p (by simp [hp]))
-      obtain ⟨key, hkey⟩ := htotal cpe
-      obtain ⟨pe', hdec, heq⟩ := hround cpe key hkey
-      have hd : key ≠ "." := fun h => hnd cpe (h ▸ hkey)
+      obtain ⟨l, hl, ih⟩ := emitMerge_read_on k (mpe :: ms) cs hms hcs'.2
+        (fun p hp => hne p (by simp [hp])) (fun p hp => hok p (by simp [hp])) hlm
+        (fun p hp => hlc p (by simp [hp]))
+      obtain ⟨key, hkey, hd, pe', hdec, heq⟩ := hlc (cpe, t) (by simp)
       obtain ⟨sub, hsub, herr, hun, hhas, hmem⟩ := hok (cpe, t) (by simp) false
       refine ⟨(key, J.obj sub) :: l, by rw [emitMergeWith]; simp [hkey, hl, hsub, hcmp], ?_⟩
       intro acc hacc hfr
@@ -602,6 +623,18 @@ theorem emitMerge_read (k : KeyCodec) (htotal : ∀ pe, ∃ s, k.enc pe = some s
       simp only [Bool.false_and, Bool.false_or]
       ac_rfl
 termination_by ms cs => ms.length + cs.length
+
+
+theorem emitMerge_read (k : KeyCodec) (htotal : ∀ pe, ∃ s, k.enc pe = some s)
+    (hround : ∀ pe s, k.enc pe = some s → ∃ pe', k.dec s = .ok pe' ∧ PE.equals pe' pe = true)
+    (hnd : ∀ pe, k.enc pe ≠ some ".") :
+    ∀ (ms : List PE) (cs : Children), SortedPE ms → SortedKeys cs →
+      (∀ p ∈ cs, isEmpty p.2 = false) → (∀ p ∈ cs, TreeOK k p.2) →
+      ∃ l, emitMergeWith k ms cs = some l ∧
+        ∀ acc : ReadOut, Good acc.children →
+          (∀ p ∈ cs, getChild p.1 (tr acc.children).children = none) → ReadSpec k l (node ms cs) acc :=
+  fun ms cs hms hcs hne hok => emitMerge_read_on k ms cs hms hcs hne hok
+    (fun pe _ => lawAt_of_laws k htotal hround hnd pe) (fun p _ => lawAt_of_laws k htotal hround hnd p.1)
 
 theorem readV1_obj_fields (k : KeyCodec) (ms : List (String × J)) :
     (readV1With k (J.obj ms)).err = (readMembersWith k ms ⟨none, false, false, false⟩).err ∧
@@ -626,16 +659,17 @@ theorem isSome_of_has {o : Option SetTrie} {q : Path} (h : has q (tr o) = true) 
   | none => simp [tr, has_empty] at h
   | some t => rfl
 
-theorem treeOK (k : KeyCodec) (htotal : ∀ pe, ∃ s, k.enc pe = some s)
-    (hround : ∀ pe s, k.enc pe = some s → ∃ pe', k.dec s = .ok pe' ∧ PE.equals pe' pe = true)
-    (hnd : ∀ pe, k.enc pe ≠ some ".") : ∀ t : SetTrie, wf t = true → TreeOK k t := by
+/-- `treeOK` with the codec laws required only of the elements of the trie -/
+theorem treeOK_on (k : KeyCodec) : ∀ t : SetTrie, wf t = true → AllPE (LawAt k) t → TreeOK k t := by
   intro t
   induction t using SetTrie.ind with
   | h m c ih =>
-    intro hw b
+    intro hw hall b
     have hw' := wf_node.1 hw
-    obtain ⟨l, hl, hspec⟩ := emitMerge_read k htotal hround hnd m c hw'.1 hw'.2.1
-      (fun p hp => (hw'.2.2 p hp).2) (fun p hp => ih p hp (hw'.2.2 p hp).1)
+    have hall' := allPE_node hall
+    obtain ⟨l, hl, hspec⟩ := emitMerge_read_on k m c hw'.1 hw'.2.1
+      (fun p hp => (hw'.2.2 p hp).2) (fun p hp => ih p hp (hw'.2.2 p hp).1 (hall'.2.2 p hp))
+      hall'.1 hall'.2.1
     have hfr : ∀ (bm : Bool), ∀ p ∈ c,
         getChild p.1 (tr (ReadOut.mk none bm false false).children).children = none := by
       intro bm p _; simp [tr, empty, SetTrie.children, getChild]
@@ -676,6 +710,23 @@ theorem treeOK (k : KeyCodec) (htotal : ∀ pe, ∃ s, k.enc pe = some s)
       cases hc : (readMembersWith k l ⟨none, false, false, false⟩).children with
       | none => simp [hc] at hsome
       | some _ => rfl
+
+theorem treeOK (k : KeyCodec) (htotal : ∀ pe, ∃ s, k.enc pe = some s)
+    (hround : ∀ pe s, k.enc pe = some s → ∃ pe', k.dec s = .ok pe' ∧ PE.equals pe' pe = true)
+    (hnd : ∀ pe, k.enc pe ≠ some ".") : ∀ t : SetTrie, wf t = true → TreeOK k t :=
+  fun t hw => treeOK_on k t hw (allPE_trivial (lawAt_of_laws k htotal hround hnd) t)
+
+/-- serialising a well-formed set and parsing it back yields an equal set, the codec laws being required
+only of the path elements of the set -/
+theorem fromJSON_toJSON_on (k : KeyCodec) (s : SetTrie) (hs : wf s = true) (hall : AllPE (LawAt k) s) :
+    ∃ j, toJSONWith k s = some j ∧ ∃ s', fromJSONWith k j = .ok s' ∧ equals s' s = true := by
+  obtain ⟨sub, hsub, herr, hun, hhas, _⟩ := treeOK_on k s hs hall false
+  refine ⟨J.obj sub, by simp [toJSONWith, hsub], tr (readV1With k (J.obj sub)).children, ?_, ?_⟩
+  · unfold fromJSONWith
+    simp only [herr, hun]
+    rfl
+  · rw [equals_iff_same_members _ _ (wf_tr (good_readV1 k _)) hs]
+    exact hhas
 
 /-- serialising a well-formed set and parsing it back yields an equal set -/
 theorem fromJSON_toJSON (k : KeyCodec) (htotal : ∀ pe, ∃ s, k.enc pe = some s)
